@@ -10,6 +10,7 @@ import Qv.Drv.C07
 import Qv.Drv.C08
 import Qv.Drv.C13
 import Qv.Drv.C06
+import Qv.Drv.C04
 /-! Line protocol: `<op> <json>` per line in, one JSON document per line out. -/
 open Lean
 
@@ -31,7 +32,8 @@ def handlers : List (String × (Json → Except String Json)) := [
   ("C13.read_seed", Qv.Drv.C13.readSeedJ),
   ("C06.call", Qv.Drv.C06.callJ),
   ("C06.inter", Qv.Drv.C06.interJ),
-  ("C06.func_args", Qv.Drv.C06.funcArgsJ)
+  ("C06.func_args", Qv.Drv.C06.funcArgsJ),
+  ("C04.analyze", Qv.Drv.C04.analyzeJ)
 ]
 
 def handle (line : String) : String :=
